@@ -41,6 +41,10 @@ def run(ctx: Context) -> None:
     ctx.rule(r5_labels, v)
     ctx.rule(r6_sorted_return, v)
     ctx.rule(r7_lent_arrays)
+    # every per-sample record has one row per proposed point only if sample() hands back exactly batch_size rows: the labels are written for
+    # `batch_size` samples whatever the sampler returned (shape-preservation rules of the deduplication wrapper, shared with C12)
+    from . import c12
+    ctx.rule(c12.sample_rules)
 
 
 # ---------------------------------------------------------------------------------------------- R1
@@ -392,7 +396,8 @@ def r6_sorted_return(ctx: Context, v: CalibrateView) -> None:
 
 
 # ---------------------------------------------------------------------------------------------- R7
-def r7_lent_arrays(ctx: Context) -> None:
+def r7_lent_arrays(ctx: Context, only: tuple[str, ...] | None = None) -> None:
+    """`only`: report in-place writes into these roles only (other checks borrow the rule for the part of the history they depend on)."""
     prog = ctx.prog
     attr_seeds = {("Calibrator", a): {f"history.{a}"} for a in HISTORY}
     attr_seeds[("Calibrator", "real_data")] = {"real_data"}
@@ -411,9 +416,10 @@ def r7_lent_arrays(ctx: Context) -> None:
     aa = AliasAnalysis(prog, param_seeds, attr_seeds).run()
     for q in aa.analysed:
         ctx.functions.add(q)
-    for (role, q, text), fd in sorted(aa.findings.items()):
+    shown = {k: fd for k, fd in aa.findings.items() if only is None or k[0] in only}
+    for (role, q, text), fd in sorted(shown.items()):
         ctx.fail("R7.lent-arrays", f"{q.split(':')[1]}:{role}:{text}", f"{fd.what} modifies recorded data ({role}) in place", fd.func, fd.node, fd.chain)
-    if not aa.findings:
+    if not shown:
         ctx.ok("R7.lent-arrays", "calibrator:lent-arrays", f"no in-place write through an alias of history / new series / real data in {len(aa.analysed)} functions")
     ctx.floor("R7", "functions receiving an alias of recorded data", len([1 for v_ in aa.param_tags.values() if v_]), 30)
     ctx.tables["C02.R7.alias_flow"] = {
